@@ -53,7 +53,7 @@ void BEGINStatement::docatch(const RuntimeError& rt, Context& ctx) const
               /* catch known exception */
               (ec != EXC_RT_USER_S) ||
               /* catch user defined exception */
-              (ec == EXC_RT_USER_S && c.first == rt.what())
+              (ec == EXC_RT_USER_S && c.first == rt.arg())
               )))
       {
         /* catch the user defined exception */
